@@ -55,7 +55,8 @@ def scriptVulnerable (salt thresh verr : Nat) (r : Record) (v : Vuln) : Option B
 /-! ### parsing -/
 
 def natList (s : String) : Option (List Nat) :=
-  if s == "-" || s == "" then some [] else (s.splitOn ",").mapM String.toNat?
+  -- `-` the empty (nil) slice, `_` an empty slice that is not nil: the same list to the model
+  if s == "-" || s == "_" || s == "" then some [] else (s.splitOn ",").mapM String.toNat?
 
 def kv (ws : List String) (k : String) : Option String :=
   ws.findSome? fun w => if w.startsWith (k ++ "=") then some (String.ofList (w.toList.drop (k.length + 1))) else none
